@@ -460,6 +460,8 @@ class C13:
                             problems.append("%s prints %r, expected %r" % (nm, t, want17))
                 if problems:
                     nbad += 1
+                    if nbad > 3:
+                        continue
                     self.chk.violation(sig="%s:text:%s" % (part, hexb),
                                        what="double %s: %s" % (fmt_bits(b), "; ".join(problems)),
                                        replay_text=print_replay(b), replay_cmd="janet <this file>")
@@ -855,6 +857,16 @@ def main():
         es = list(range(0, 2047))
         c.print_families("print.twobit", ["[:twobit [%s]]" % " ".join(map(str, es[i:i + 8])) for i in range(0, len(es), 8)],
                          "every mantissa with <= 2 bits set x exponent fields 0..2046 x sign")
+    if c.want("print.stride"):
+        n = 2 ** 20 if quick else 2 ** 21
+        c.print_families("print.stride", ["[:stride %d %d]" % (a, a + 2 ** 14) for a in range(0, n, 2 ** 14)],
+                         "bit patterns (k*2654435761 mod 2^32):(k*2246822519+12345 mod 2^32), k < %d, finite ones: "
+                         "full-width mantissas over all exponents and both signs" % n)
+    if not quick and c.want("print.threebit"):
+        es = list(range(0, 2047))
+        c.print_families("print.threebit", ["[:threebit %d [%s]]" % (i, " ".join(map(str, es[a:a + 256])))
+                                            for i in range(2, 52) for a in range(0, 2047, 256)],
+                         "every mantissa with exactly 3 bits set x exponent fields 0..2046, positive")
     if c.want("print.ranges"):
         n = 2 ** 18 if quick else 2 ** 22
         step = 2 ** 14
